@@ -330,7 +330,57 @@ func checkK4(c *Ctx, jr *joinRoles) {
 			}
 		}
 	}
-	c.R.Check(len(problems) == 0 && loads > 0, "K4", jr.key, p.Pos(jr.entry.Pos()), fmt.Sprintf("%d loads of the buffer, each flowing only to append/len/reslice/output", loads), strings.Join(dedup(problems), "; "))
+	// the buffer is this instance's alone: its address is used only to load and store the field,
+	// and what the constructor puts there is freshly made (nothing recycled from a pool, nothing
+	// another instance or a consumer may still hold)
+	fns := append([]*ssa.Function{}, jr.rt.Funcs...)
+	fns = append(fns, jr.d.Ctors...)
+	for _, fn := range fns {
+		for _, b := range fn.Blocks {
+			for _, in := range b.Instrs {
+				fa, ok := in.(*ssa.FieldAddr)
+				if !ok || fieldName(fa.X.Type(), fa.Field) != "join" || rootStructOf(fa) != jr.d.Named || fa.Referrers() == nil {
+					continue
+				}
+				for _, ref := range *fa.Referrers() {
+					switch u := ref.(type) {
+					case *ssa.DebugRef:
+					case *ssa.UnOp:
+						if u.Op != token.MUL {
+							problems = append(problems, "address of the buffer field is used by "+u.Op.String()+" at "+p.InstrPos(u))
+						}
+					case *ssa.Store:
+						if u.Addr != ssa.Value(fa) {
+							problems = append(problems, "address of the buffer field is stored at "+p.InstrPos(u)+": the buffer has a second reference")
+							continue
+						}
+						isCtor := false
+						for _, ct := range jr.d.Ctors {
+							if ct == fn {
+								isCtor = true
+							}
+						}
+						if isCtor {
+							xs := p.SymX(u.Val)
+							fresh := (xs.Op == "make" && strings.HasPrefix(xs.Name, "slice#")) || (xs.Op == "const" && xs.Name == "nil")
+							if !fresh {
+								problems = append(problems, "the constructor's initial buffer is "+xs.String()+", not a freshly made slice: it may be shared with another instance or still be held by a consumer")
+							}
+						}
+					case ssa.CallInstruction:
+						// a method of a private named slice type with a pointer receiver
+						cal := p.Callee(u)
+						if cal == nil || !p.IsProduct(cal) || cal.Signature.Recv() == nil || len(u.Common().Args) == 0 || u.Common().Args[0] != ssa.Value(fa) {
+							problems = append(problems, "address of the buffer field is passed to "+p.calleeName(u.Common())+" at "+p.InstrPos(u)+": the buffer gets a second reference (it can be reused while a consumer still owns the delivered slice)")
+						}
+					default:
+						problems = append(problems, fmt.Sprintf("address of the buffer field is used by %T at %s", ref, p.InstrPos(ref)))
+					}
+				}
+			}
+		}
+	}
+	c.R.Check(len(problems) == 0 && loads > 0, "K4", jr.key, p.Pos(jr.entry.Pos()), fmt.Sprintf("%d loads of the buffer, each flowing only to append/len/reslice/output; its address is not handed out; the initial buffer is fresh", loads), strings.Join(dedup(problems), "; "))
 }
 
 func isStoredToField(v ssa.Value, field string) bool {
@@ -577,7 +627,27 @@ func checkT5(c *Ctx, jr *joinRoles) {
 								}
 							}
 						}
-						if _, isDefer := in.(*ssa.Defer); !isDefer && !deferredHelper && (blockInLoop(call.Block()) || !isLoopFn(jr, fn)) {
+						// (an explicit Stop is "after the receive loop" only if no cycle can be entered after it)
+						reachesLoop := false
+						if _, isDefer := in.(*ssa.Defer); !isDefer {
+							seenB := map[*ssa.BasicBlock]bool{}
+							work := []*ssa.BasicBlock{call.Block()}
+							for len(work) > 0 && !reachesLoop {
+								x := work[len(work)-1]
+								work = work[:len(work)-1]
+								for _, sx := range x.Succs {
+									if seenB[sx] {
+										continue
+									}
+									seenB[sx] = true
+									if blockInLoop(sx) {
+										reachesLoop = true
+									}
+									work = append(work, sx)
+								}
+							}
+						}
+						if _, isDefer := in.(*ssa.Defer); !isDefer && !deferredHelper && (blockInLoop(call.Block()) || !isLoopFn(jr, fn) || reachesLoop) {
 							c.R.Fail("T5", joinKey(jr, fn, "ticker-stop"), p.InstrPos(call), "the ticker is stopped while the discipline runs (not by a defer / after the receive loop): until something re-arms it the timeout is not examined and accumulated elements wait without bound")
 						}
 					}
